@@ -22,6 +22,7 @@ def run(ctx):
     ctx.rule("C09.construction-restores", "the connection binds its session from journaler.create_or_load(target, sender) with matching roles; no constructor / connect path writes the counters")
     ctx.rule("C09.loaders-agree", "both journal load paths decode both stored counters as stored+1")
     ctx.rule("C09.renumbering-durable", "Journaler.set_seq_num commits; every accepted inbound message is journaled (persist_msg INBOUND is must-pass on the accept path of _finalize_message)")
+    ctx.rule("C09.restore-is-last", "in the resend handler nothing is journaled for the outbound direction after the saved counter was restored, and every normal exit after a rewind passes the restore")
     ctx.assumptions += ["SQLite commit durability (trusted)", "kill points inside SQLite are not analysed"]
 
     # ---- rule 1: provenance of the inbound counter in FIXSession.set_next_num_in
@@ -196,6 +197,33 @@ def run(ctx):
     ctx.instance("C09.renumbering-durable", "_process_message[finalize in finally]", in_finally,
                  "_finalize_message is no longer the finally-epilogue of the dispatcher: a handler that raises (e.g. the application's on_message) "
                  "leaves a delivered message uncounted and unjournaled, so it is requested and delivered again", loc(pm))
+
+    # ---- rule 6: after the replay the restored counter is the last thing stored for the outbound direction
+    from sa.rewind import Rewind
+    rw = Rewind(repo)
+    if rw.rewinds:
+        g2 = rw.cfg
+        after = g2.reach(rw.restores, exc=False)
+        bad = []
+        for nid in sorted(after):
+            node = g2.nodes[nid]
+            if node.ast is None or node.kind == "handler" or nid in rw.restores:
+                continue
+            roots = [node.ast] if node.kind in ("stmt", "test") else ([node.ast.iter] if node.kind == "for" else [])
+            for r in roots:
+                for c in walk_no_nested(r):
+                    if isinstance(c, ast.Call):
+                        kind, name = res.resolve(c, rw.fn)
+                        if kind == "func" and (name == "AsyncFIXConnection.send_msg" or "Journaler.persist_msg" in res.transitive(name)[0]):
+                            bad.append((nid, c))
+        ctx.instance("C09.restore-is-last", "_process_resend[nothing journaled after the restore]", not bad,
+                     "an outbound frame is journaled after next_num_out was restored: persist_msg stores that frame's own (lower, replayed or gap-fill) MsgSeqNum as "
+                     "the outbound counter, so after a restart the session re-uses numbers that are already on the wire"
+                     + (f" (`{short(bad[0][1])}`)" if bad else ""), loc(bad[0][1]) if bad else loc(rw.fn))
+        # and the restore is reached on every normal way out once the counter was rewound
+        leak = g2.witness_path(rw.rewinds[0], [g2.exit], avoid=set(rw.restores), exc=False)
+        ctx.instance("C09.restore-is-last", "_process_resend[rewind always restored on normal exit]", leak is None,
+                     "a normal path leaves the replay with the rewound counter still live and stored", loc(rw.fn), g2.describe(leak or [])[-6:])
 
 
 def _paths(g, src, dst, avoid):
